@@ -236,7 +236,7 @@ func vC20ReplayCorpus(t *testing.T, o *vC20Out) {
 					emb = embedIPv4(p, v4)
 					ext, ok = extractIPv4(p, emb)
 					if bits, _ := p.Mask.Size(); bits%8 == 0 && bits >= 32 && bits <= 96 {
-						if ref := vC20RefEmbed(p, v4); !ref.Equal(emb) && validPrefixBits[bits] {
+						if ref := vC20RefEmbed(p, v4); !ref.Equal(emb) && vC20IsRFCLen(bits) {
 							goFail = fmt.Sprintf("embedIPv4(%s, %s) = %x, RFC 6052 reference %x", p, v4, []byte(emb), []byte(ref))
 						}
 					}
